@@ -143,16 +143,21 @@ def hygiene():
 
 ALLOWED_AXIOMS = {'propext', 'Classical.choice', 'Quot.sound'}
 
-def audit(theorems, tag):
-    """`#print axioms` for every theorem; returns {name: (ok, [axioms] | error text)}"""
+def audit(theorems, tag, modules):
+    """build the property's proof modules, then `#print axioms` for every theorem;
+    returns {name: (ok, [axioms] | error text)}"""
     d = os.path.join(WORK, 'audit')
     os.makedirs(d, exist_ok=True)
     f = os.path.join(d, 'Audit_%s.lean' % tag)
+    brc, bout = sh(['lake', 'build'] + list(modules), cwd=LEAN, timeout=3000)
     with open(f, 'w') as h:
-        h.write('import NixModel\n')
+        for m in modules:
+            h.write('import %s\n' % m)
         for t in theorems:
             h.write('#print axioms %s\n' % t)
     rc, out = sh(['lake', 'env', 'lean', f], cwd=LEAN, timeout=1200)
+    if brc != 0:
+        out = bout[-3000:] + '\n' + out
     res = {}
     # messages: "'Nix.C10.lt_irrefl' depends on axioms: [propext]" / "... does not depend on any axioms"
     for t in theorems:
